@@ -80,7 +80,7 @@ def trashed(td, name, path_value, date, kind='file', tag=2000, raw_info=None):
     return nodes
 
 
-TOP_STATES = ['absent', 'sticky', 'nonsticky', 'link-sticky', 'link-nonsticky', 'file']
+TOP_STATES = ['absent', 'sticky', 'nonsticky', 'link-sticky', 'link-nonsticky', 'file', 'setgid-nonsticky', 'setuid-nonsticky', 'sticky-setgid']
 
 
 def top_state_nodes(vol, state):
@@ -99,12 +99,18 @@ def top_state_nodes(vol, state):
         return [W.d(vol.rstrip('/') + '/ns', 0o777), W.l(t, 'ns', 908)], vol.rstrip('/') + '/ns'
     if ts == 'file':
         return [W.f(t, 'not a dir', 0o644, 909)], None
+    if ts == 'setgid-nonsticky':
+        return [W.d(t, 0o2777)], t
+    if ts == 'setuid-nonsticky':
+        return [W.d(t, 0o4755)], t
+    if ts == 'sticky-setgid':
+        return [W.d(t, 0o3777)], t
     raise ValueError(ts)
 
 
 def secure(state):
     ts = TOP_STATES[state] if isinstance(state, int) else state
-    return ts == 'sticky'
+    return ts in ('sticky', 'sticky-setgid')
 
 
 def lines(text):
